@@ -469,4 +469,115 @@ def generate(repo):
         coq, py = exprs[name]
         lines.append('(* %s *)' % py.replace('*)', '* )'))
         lines.append('Definition rd_%s %s : %s := %s.' % (name, params, ty, coq))
-    return {'WsgiReader.v': '\n'.join(lines) + '\n'}
+    return {'WsgiReader.v': '\n'.join(lines) + '\n' + generate_iterator(repo)}
+
+
+# ------------------------------------------------------------------ _ResponseIterator
+SKELETON_RI = """class _ResponseIterator(object):
+
+    def __init__(self, chunks, on_close):
+        self.__chunks = iter(chunks)
+        self.__on_close = on_close
+        self.__closed = False
+
+    def __iter__(self):
+        return self
+
+    def __next__(self):
+        if self.__closed:
+            raise StopIteration()
+        try:
+            return next(self.__chunks)
+        except BaseException:
+            self.close()
+            raise
+
+    def close(self):
+        if self.__closed:
+            return
+        HOLE_steps"""
+
+
+def _private_attrs(cdef):
+    """name-mangled attributes of the instance, by order of first occurrence"""
+    out = []
+    for n in _walk_in_order(cdef):
+        if isinstance(n, ast.Attribute) and isinstance(n.value, ast.Name) and _private(n.attr) and n.attr not in out:
+            out.append(n.attr)
+    return out
+
+
+def extract_iterator(tree):
+    """the statement order of _ResponseIterator.close after its guard: [RiMark; RiCall] on the repaired tree.
+    Everything else of the class is pinned after normalisation (docstrings dropped, the private attribute
+    names and the locals of each method alpha-renamed by order of first occurrence)."""
+    cdef = copy.deepcopy(_class(tree, '_ResponseIterator'))
+    want = ast.parse(SKELETON_RI).body[0]
+    # docstring; `next = __next__` (the Python 2 spelling of the iterator protocol, dead on Python 3)
+    cdef.body = [st for st in cdef.body if not (isinstance(st, ast.Expr) and isinstance(st.value, ast.Constant))
+                 and ast.unparse(st) != 'next = __next__']
+    wanted = {f.name: f for f in want.body if isinstance(f, ast.FunctionDef)}
+    body = []
+    for st in cdef.body:
+        if isinstance(st, ast.FunctionDef):
+            if st.name not in wanted:
+                raise TranslateError('_ResponseIterator.%s is not modelled' % st.name)
+            fn = _strip_doc(_method(cdef, st.name))
+            if len(_params(fn)) != len(_params(wanted[st.name])) or not _params(fn) or \
+                    any(isinstance(n, ast.Name) and n.id == _params(fn)[0] and not isinstance(n.ctx, ast.Load)
+                        for n in ast.walk(fn)):
+                raise TranslateError('_ResponseIterator.%s: parameters differ from the modelled ones' % st.name)
+            if st.name != 'close':
+                _alpha(fn, ast.unparse(wanted[st.name]))
+            else:
+                _Rename({_params(fn)[0]: 'self'}).visit(fn)
+            body.append(fn)
+        else:
+            body.append(st)
+    cdef.body = body
+    have, canon = _private_attrs(cdef), _private_attrs(want)
+    if len(have) != len(canon):
+        raise TranslateError('_ResponseIterator keeps %d private attributes (%s), the modelled one %d (%s)'
+                             % (len(have), ', '.join(have), len(canon), ', '.join(canon)))
+    table = dict(zip(have, canon))
+    for n in ast.walk(cdef):
+        if isinstance(n, ast.Attribute) and isinstance(n.value, ast.Name) and n.attr in table:
+            n.attr = table[n.attr]
+    close = [f for f in cdef.body if isinstance(f, ast.FunctionDef) and f.name == 'close']
+    if len(close) != 1 or len(close[0].body) < 2:
+        raise TranslateError('_ResponseIterator.close does not have the modelled structure')
+    tail = close[0].body[1:]
+    close[0].body = close[0].body[:1] + [ast.Expr(ast.Name(id='HOLE_steps', ctx=ast.Load()))]
+    text = ast.unparse(cdef)
+    if text != SKELETON_RI:
+        import difflib
+        d = [l for l in difflib.unified_diff(SKELETON_RI.split('\n'), text.split('\n'), lineterm='', n=0)
+             if not l.startswith(('---', '+++', '@@'))]
+        raise TranslateError('_ResponseIterator: statement skeleton differs from the modelled one: %s' % ' / '.join(d)[:400])
+    steps = []
+    for st in tail:
+        u = ast.unparse(st)
+        if u == 'self.__closed = True':
+            steps.append('RiMark')
+        elif u == 'self.__on_close()':
+            steps.append('RiCall')
+        else:
+            raise TranslateError('_ResponseIterator.close: unmodelled statement %s' % u[:120])
+    if sorted(steps) != ['RiCall', 'RiMark']:
+        raise TranslateError('_ResponseIterator.close: steps %s' % steps)
+    return steps
+
+
+def generate_iterator(repo):
+    src = open(os.path.join(repo, 'spyne', 'server', 'wsgi.py')).read()
+    try:
+        steps, ok, why = extract_iterator(ast.parse(src)), True, ''
+    except TranslateError as e:
+        steps, ok, why = ['RiMark', 'RiCall'], False, str(e)
+    lines = ['', '(** _ResponseIterator.close after its guard, statement by statement *)',
+             'Inductive ri_step := RiMark (* self.__closed = True *) | RiCall (* self.__on_close() *).']
+    if not ok:
+        lines.append('(* RI SHAPE MISMATCH: %s *)' % why.replace('*)', '* )').replace('(*', '( *'))
+    lines.append('Definition ri_shape_ok : bool := %s.' % ('true' if ok else 'false'))
+    lines.append('Definition ri_close_steps : list ri_step := (%s)%%list.' % ' :: '.join(steps + ['nil']))
+    return '\n'.join(lines) + '\n'
